@@ -496,6 +496,15 @@ def position_runs(chk, n):
             path = os.path.join(chk.work, f'c11_pos_{k}.log')
             with open(path, 'wb') as f:
                 f.write(c)
+            if (k // 2) % 4 == 0:
+                # a new shared constraint every four files, its since date
+                # taken from the first of them
+                shared_since = base + datetime.timedelta(
+                    seconds=rng.choice([t // 2, t, 1]))
+                shared = SearchConstraintSearchSince(
+                    current_date=shared_since.strftime('%Y-%m-%d %H:%M:%S'),
+                    ts_matcher_cls=TS, days=0, hours=0)
+                history = []
             fd = open(path, 'rb')
             since = shared_since
             chk.dist('position_shared_constraint_real_file')
